@@ -82,7 +82,11 @@ func hasLoops(fn *ssa.Function) bool { return len(analyzeCFG(fn).loops) > 0 }
 func instrCount(fn *ssa.Function) int {
 	n := 0
 	for _, b := range fn.Blocks {
-		n += len(b.Instrs)
+		for _, in := range b.Instrs {
+			if _, dbg := in.(*ssa.DebugRef); !dbg {
+				n++
+			}
+		}
 	}
 	return n
 }
@@ -205,6 +209,7 @@ func (ex *Exec) havocCall(fr *Frame, instr ssa.CallInstruction, c *ssa.CallCommo
 	before := st
 	st = ex.havocKeys(st, keys, name)
 	ex.preserveLocals(fr, pc, before, st, keys)
+	st = ex.havocPointedLocals(fr, c, st)
 	var res Term
 	if resT != nil {
 		if tt, ok := resT.(*types.Tuple); ok {
@@ -218,6 +223,26 @@ func (ex *Exec) havocCall(fr *Frame, instr ssa.CallInstruction, c *ssa.CallCommo
 		}
 	}
 	return st, res, false
+}
+
+// havocPointedLocals: a callee that is not executed inline received a pointer
+// to a non-escaping local; the whole local becomes unknown.
+func (ex *Exec) havocPointedLocals(fr *Frame, c *ssa.CallCommon, st State) State {
+	for _, a := range c.Args {
+		t := ex.val(fr, a)
+		if t.Lost {
+			ex.outsideSubset("merged pointer to local passed to a call")
+		}
+		if t.LAddr == nil || t.LAddr.Local == nil {
+			continue
+		}
+		lv := t.LAddr.Local
+		v := ex.vc.fresh("hv_"+lv.Name, ex.te.sortOf(lv.T))
+		ex.assumeTypeDeep(v, lv.T)
+		st = st.with(lv.Key, v)
+		ex.outsideSubset("address of local " + lv.Name + " passed to a call that is not executed inline")
+	}
+	return st
 }
 
 func dynMatches(d *DynSpec, recv types.Type, method string) bool {
@@ -296,6 +321,7 @@ func (ex *Exec) callContract(fr *Frame, instr ssa.CallInstruction, callee *ssa.F
 		keys := ex.g.siteFrame(instr)
 		st = ex.havocKeys(st, keys, short)
 		ex.preserveLocals(fr, pc, pre, st, keys)
+		st = ex.havocPointedLocals(fr, c, st)
 	}
 	var res Term
 	var results []Term
@@ -838,6 +864,7 @@ func (ex *Exec) loopHead(fr *Frame, li *loopInfo, pc Term, st State) (Term, Stat
 				ex.vc.assume(pc, ex.vc.def("invh", fact), "loop invariant "+inv.Label)
 			}
 		}
+		ex.applyAt(fr, fmt.Sprintf("loop%d", li.ordinal), pc, nst, nil)
 		for _, d := range spec.Decreases {
 			se := ex.newSpecEnv(fr, pc, nst, fr.entry)
 			v := se.value(se.eval(d.E))
@@ -874,12 +901,14 @@ func (ex *Exec) loopBack(fr *Frame, li *loopInfo, cond Term, st State) {
 	}
 	lc := loopCtxs[ex.loopKey(fr, li)]
 	where := posOf(fr.fn, li.header.Instrs[0].Pos())
+	ex.applyAt(fr, fmt.Sprintf("loop%d", li.ordinal), cond, st, nil)
 	for _, inv := range spec.Invs {
 		se := ex.newSpecEnv(fr, cond, st, fr.entry)
 		goal, err := se.evalBool(inv.E)
-		ex.nSafety["back:"+inv.Label]++
+		bk := fmt.Sprintf("back:%d:%d:%s", fr.inst, li.ordinal, inv.Label)
+		ex.nSafety[bk]++
 		suffix := ""
-		if n := ex.nSafety["back:"+inv.Label]; n > 1 {
+		if n := ex.nSafety[bk]; n > 1 {
 			suffix = fmt.Sprintf(".%d", n)
 		}
 		o := &Obligation{ID: fmt.Sprintf("%s#loop%d.%s.step%s", shortID(fnID(fr.fn)), li.ordinal, inv.Label, suffix), Func: ex.fnID, Kind: "invariant.step", Props: inv.Props, Where: where}
@@ -908,9 +937,10 @@ func (ex *Exec) loopBack(fr *Frame, li *loopInfo, cond Term, st State) {
 		if okAll {
 			goal = or(disj...)
 		}
-		ex.nSafety["dec"]++
+		dk := fmt.Sprintf("dec:%d:%d", fr.inst, li.ordinal)
+		ex.nSafety[dk]++
 		suffix := ""
-		if n := ex.nSafety["dec"]; n > 1 {
+		if n := ex.nSafety[dk]; n > 1 {
 			suffix = fmt.Sprintf(".%d", n)
 		}
 		o := &Obligation{ID: fmt.Sprintf("%s#loop%d.decreases%s", shortID(fnID(fr.fn)), li.ordinal, suffix), Func: ex.fnID, Kind: "decreases", Props: spec.Decreases[0].Props, Where: where}
